@@ -24,6 +24,8 @@ def run(tier):
             ("G(6) x F, m <= 6, containing a 6-cycle (all labelled hexagons), default and reversed edge orientation", [["--n", 6, "--alpha", "F", "--max-m", 6, "--need-cycle-len", 6], ["--n", 6, "--alpha", "F", "--max-m", 6, "--need-cycle-len", 6, "--orient", 1]]),
             ("G(4) x F reversed / alternating orientation", [["--n", 4, "--alpha", "F", "--orient", 1], ["--n", 4, "--alpha", "F", "--orient", 2]]),
             ("G(5) x F", [["--n", 5, "--alpha", "F"]]),
+            ("dense graphs (support vectors with >= |V| entries) K6, K7, K8, K6/K7 + pendant vertex, wheels, K3,4 x menu T97x150 (150 pseudo-random weightings in 0.1..9.7), signed and FVS variants, sequential and TBB (the ISO variants are excluded here: their recorded finding is identified input by input on the G(n) x F rows)",
+             [["--families", "K:6,K:7,K:8,Kp:6:1,Kp:7:1,wheel:6,wheel:7,wheel:8,Kb:3:4", "--alpha", "T97x150", "--variants", "signed,signed_tbb,fvs,fvs_tbb"]]),
             ("G(6) x F, m <= 7, containing a cycle of >= 5 edges, sequential signed+fvs variants", [["--n", 6, "--alpha", "F", "--max-m", 7, "--need-cycle-len", 5, "--variants", "signed,fvs"]])]
     if tier == "thorough":
         plan += [("G(4) x F4", [["--n", 4, "--alpha", "F4"]]),
